@@ -6,7 +6,7 @@ CONSTANTS NAsg = 4
  NInG = 1
  NPre = 1
  NPost = 4
- NNatPost = 3
+ NNatPost = 2
  Deep = FALSE
 INVARIANT Sound
 INVARIANT ExecAgrees
